@@ -151,6 +151,16 @@ add("C11", "BSTR+CH (+ concrete structure diff)",
     "Strings of 2-3 symbolic characters per component; package segments that look like versions excluded; two-template "
     "collisions and snake-case coincidences of service/proto names are outside the claim.")
 
+add("C09", "CH (+ concrete table diff)",
+    "CrossHair (z3) enumeration with solver-proved exhaustion over the real _get_retry_and_timeout on service configs "
+    "assembled from symbolic selectors; concrete diff of the emitted _prep_wrapped_messages defaults",
+    "Generator-side half: for ALL service configs within the bound the selected entry is the first one naming the method "
+    "exactly (prefix-related names, service-level names, other services never match), with its timeout and policy, else "
+    "(None, None); the rendered defaults of every method equal the selected entry for two configurations (concrete).",
+    "DESIGN.md section 5 C09",
+    "<= 2 entries quick / 3 thorough; durations from a menu of 4 (float parsing is C code, _to_float otherwise outside); "
+    "the retry loop, back-off sleeps, deadlines and per-call overrides are api_core behaviour and outside the claim.")
+
 PENDING = {}
 
 
